@@ -17,6 +17,8 @@ pub trait Fv: 'static + Send + Sync {
     type Sig: Clone + Send + Sync + PartialEq + 'static;
 
     fn keygen(seed: [u8; 32]) -> (Self::Sk, Self::Pk);
+    /// SecretKey::generate(): seed taken from the thread-local OS-seeded generator
+    fn generate() -> Self::Sk;
     fn sign(msg: &[u8], sk: &Self::Sk) -> Self::Sig;
     fn verify(msg: &[u8], sig: &Self::Sig, pk: &Self::Pk) -> bool;
     fn sk_to_bytes(sk: &Self::Sk) -> Vec<u8>;
@@ -62,6 +64,9 @@ macro_rules! impl_fv {
             type Sig = $m::Signature;
             fn keygen(seed: [u8; 32]) -> (Self::Sk, Self::Pk) {
                 $m::keygen(seed)
+            }
+            fn generate() -> Self::Sk {
+                $m::SecretKey::generate()
             }
             fn sign(msg: &[u8], sk: &Self::Sk) -> Self::Sig {
                 $m::sign(msg, sk)
